@@ -1,14 +1,17 @@
 ----------------------------- MODULE Roller_Trace -----------------------------
 (* Trace validation for C29: every recorded Dial history of the real Roller (one ndjson line per scenario:
-   [id, configured, preset, steps: [accept, tcpfail, n, dials: [caller, ret, seen, snis, given, conn, csni], working, stray]])
-   must be a behaviour of Roller: the shuffles and the interleaving of concurrent callers are found by TLC, what
-   the test server saw (seen), what Dial returned and WorkingHelloID after the step are bound to the log.
+   [id, configured, preset, steps: [accept, rmode, tcpfail, n, dials: [caller, ret, seen, sok, snis, given, conn, csni, cseed],
+   working, wseed, stray]]) must be a behaviour of Roller: the shuffles, the interleaving of concurrent callers and the
+   numbering of fresh seeds are found by TLC; what the test server saw, what Dial returned and WorkingHelloID after the
+   step are bound to the log.  `seen` is a sequence of <<id, k>>: k = 0 for a recognised parrot, else the number the
+   test server gave to that concrete fingerprint (same number <=> same ClientHello modulo per-connection material).
    Every scenario has its own initial state; <<"ACC", id>> is printed when all of it was explained. *)
 EXTENDS Roller, Json
 Traces == ndJsonDeserialize("roller_traces.ndjson")
 VARIABLE t
 Steps == Traces[t].steps
-TInit == /\ t \in 1..Len(Traces) /\ InitWith(Range(Traces[t].configured), Traces[t].preset)
+TInit == /\ t \in 1..Len(Traces)
+         /\ InitWith({E(i) : i \in Range(Traces[t].configured)}, IF Traces[t].preset = "-" THEN None ELSE E(Traces[t].preset))
 Rec(k, c) == LET ds == Steps[k].dials IN ds[CHOOSE i \in 1..Len(ds) : ds[i].caller = c]
 IsPrefix(a, b) == Len(a) <= Len(b) /\ \A i \in 1..Len(a) : a[i] = b[i]
 
@@ -16,14 +19,27 @@ DialMatches(k, c) ==
   LET r == Rec(k, c) IN
   /\ r.ret = result[c].kind /\ r.seen = tried[c]
   /\ \A i \in 1..Len(r.snis) : r.snis[i] = r.given                 \* SNI is the server name given to Dial
-  /\ r.ret = "ok" => (r.conn = result[c].id /\ r.csni = r.given)
-StepMatches(k) == /\ \A c \in 1..Steps[k].n : pc[c] = "done" /\ DialMatches(k, c)
-                  /\ Steps[k].working = working /\ Steps[k].stray = << >>
+  /\ r.ret = "ok" => /\ r.conn = result[c].id[1] /\ r.csni = r.given
+                     /\ (r.cseed # "") <=> IsRandom(result[c].id)   \* the returned UConn of a randomized ID carries its seed
+\* the successful randomized dials so far: which seed bytes belong to which concrete fingerprint
+OkRandom(k) == {d \in UNION {Range(Steps[j].dials) : j \in 1..k} : d.ret = "ok" /\ d.seen # << >> /\ d.seen[Len(d.seen)][1] \in RandIDs}
+StepMatches(k) ==
+  /\ \A c \in 1..Steps[k].n : pc[c] = "done" /\ DialMatches(k, c)
+  /\ Steps[k].working = working[1] /\ Steps[k].stray = << >>
+  \* WorkingHelloID.Seed is nil exactly for an unseeded ID, and otherwise it is the seed of the UConn whose hello worked
+  /\ (Steps[k].wseed = "") <=> (working[2] = 0)
+  /\ working[2] > 0 => \E d \in OkRandom(k) : d.seen[Len(d.seen)] = working /\ d.cseed = Steps[k].wseed
+  \* same seed bytes <=> same concrete fingerprint on the wire
+  /\ \A d1, d2 \in OkRandom(k) : (d1.cseed = d2.cseed) <=> (d1.seen[Len(d1.seen)] = d2.seen[Len(d2.seen)])
 
 TBegin == /\ nsteps < Len(Steps) /\ (nsteps >= 1 => StepMatches(nsteps))
-          /\ LET st == Steps[nsteps + 1] IN BeginStep(Range(st.accept), st.tcpfail, st.n)
+          /\ LET st == Steps[nsteps + 1] IN BeginStep(Range(st.accept), st.rmode, st.tcpfail, st.n)
           /\ t' = t
-TCaller == /\ \E c \in Callers : CallerStep(c) /\ IsPrefix(tried'[c], Rec(nsteps, c).seen)
+\* sok[j]: did the test server complete the handshake of the j-th hello of this call
+TCaller == /\ \E c \in Callers :
+                (/\ CallerStep(c)
+                 /\ IsPrefix(tried'[c], Rec(nsteps, c).seen)
+                 /\ ((pc[c] = "hs") => ((pc'[c] = "record") <=> Rec(nsteps, c).sok[Len(tried'[c])])))
            /\ t' = t
 TNext == TBegin \/ TCaller
 Accepted == nsteps = Len(Steps) /\ AllIdle /\ (nsteps >= 1 => StepMatches(nsteps))
